@@ -58,7 +58,11 @@ GENERIC = (
     "settings; non-float64 query coordinates re-typed in place; `~` in file names; N-D `PixCoord.rotate`; exchanged compound operands; alias keys "
     "(`width`, `point`) through `update`; plot origins with one zero component; annulus holes exactly similar to the outline; needle shapes (aspect >= 1e5); int-typed sizes reassigned to "
     "floats; vertices on the line y = x; mirrored-parity WCS in one direction only; `fill=`; range limits with many digits; Cartesian-representation "
-    "SkyCoords; rewriting identical content; stacked file extensions (.reg.fits); 0-d arrays as sizes; `|=` with a Meta object of the other kind.")
+    "SkyCoords; rewriting identical content; stacked file extensions (.reg.fits); 0-d arrays as sizes; `|=` with a Meta object of the other kind; scalar queries on a vertex's row; long thin oblique ellipses (exact mode); "
+    "augmented operators (`^=`) and `copy(operator=)`; tags in a tuple; colon notation in the latitude slot; ROTANG cells of unrotated rows; `==` "
+    "writing defaults into an operand; constructors normalising the caller's RegionMeta in place; plain text under a `.gz` name; queries that write "
+    "into meta (`setdefault`); `copy(**changes)` sharing the unchanged fields; wrong exception type for invalid compound operands; positional "
+    "`origin`; the Arrow `width=` keyword.")
 
 LEFT = (
     "Think about what is LEFT: e.g. the order in which two independent features are applied; behaviour at the exact edge of a documented domain "
